@@ -17,7 +17,7 @@ RULE = (
 ASSUMPTIONS = ["EXCHANGE_LIFETIME and EMPTY_ACK_DELAY are read from the library's default TransportTuning at run time"]
 REQUIRED_MONITORS = {"epoch_once": 300, "dup_con_reanswer": 200, "dup_non_silent": 50, "after_lifetime_new": 30, "same_mid_other_endpoint": 50, "mid_collision": 4, "transport_error_between_copies": 100}
 
-KINDS = ["fast", "slow", "fail", "noresp", "notfound"]
+KINDS = ["fast", "slow", "fail", "noresp", "notfound", "nr-other-class", "nr-other-class-slow", "nr-fail"]
 OFFS = {
     "instant": 0.0,
     "pre-ack": 0.0303,
@@ -74,7 +74,8 @@ def build(spec, variant="copy"):
     if variant == "other-token":
         tok = tok + b"\xee"
     path = b"r"
-    payload = {"fast": b"d=0;c=69;p=f", "slow": b"d=1.0;c=69;p=s", "noresp": b"d=0;c=69;p=n", "fail": b"", "notfound": b""}[kind]
+    # nr-*: the request carries a No-Response option that does NOT cover the class of the response it draws
+    payload = {"fast": b"d=0;c=69;p=f", "slow": b"d=1.0;c=69;p=s", "noresp": b"d=0;c=69;p=n", "fail": b"", "notfound": b"", "nr-other-class": b"d=0;c=128;p=e", "nr-other-class-slow": b"d=1.0;c=69;p=t", "nr-fail": b""}[kind]
     opts = []
     if kind == "fail":
         path = b"boom"
@@ -83,7 +84,15 @@ def build(spec, variant="copy"):
     opts.append((11, path))
     if kind == "noresp":
         opts.append((258, b"\x1a"))
-    code = 2 if kind in ("fast", "slow", "noresp") else 1
+    if kind == "nr-other-class":
+        opts.append((258, b"\x02"))  # not interested in 2.xx; gets a 4.00
+    if kind == "nr-other-class-slow":
+        opts.append((258, b"\x18"))  # not interested in 4.xx/5.xx; gets a separate 2.05
+    if kind == "nr-fail":
+        path = b"boom"
+        opts[0] = (11, path)
+        opts.append((258, b"\x02"))  # not interested in 2.xx; the handler raises -> 5.00
+    code = 2 if kind in ("fast", "slow", "noresp", "nr-other-class", "nr-other-class-slow") else 1
     return rc.Msg(spec["type"], code, spec["mid"], tok, tuple(opts), payload)
 
 
